@@ -203,3 +203,142 @@ package imperatives
 //@   ensures[as_written; C20] err == nil ==> (exists rest elem :: calls(table.AddRewriter) == old(calls(table.AddRewriter)) ++
 //@        eP(eP(eS(tkVal(st, p)), eP(eS(tkVal(st, p + 1)), eP(eS(""), eP(eI(atoiOf(btrim(tkVal(st, p + 2)))), rest)))), eNil))
 //@   ensures[nothing_added_on_error; C20] err != nil ==> calls(table.AddRewriter) == old(calls(table.AddRewriter))
+
+// ---------------------------------------------------------------- readRouteOpts (C20, C14): the filter options of a route command
+// ro_X(st, p): value of option X after the tokens before position p (documented semantics: empty unless given; the latest 'X=' wins)
+//@ smt (declare-fun ro_prefix (Int Int) Bytes)
+//@ smt (declare-fun ro_notPrefix (Int Int) Bytes)
+//@ smt (declare-fun ro_sub (Int Int) Bytes)
+//@ smt (declare-fun ro_notSub (Int Int) Bytes)
+//@ smt (declare-fun ro_regex (Int Int) Bytes)
+//@ smt (declare-fun ro_notRegex (Int Int) Bytes)
+//@ spec isRouteOpt(k int) bool := k == optPrefix || k == optNotPrefix || k == optSub || k == optNotSub || k == optRegex || k == optNotRegex
+//@ func readRouteOpts(s *toki.Scanner) (prefix string, notPrefix string, sub string, notSub string, regex string, notRegex string, err error)
+//@   property C20,C14
+//@   requires s != nil
+//@   let st := s.input
+//@   let p0 := s.pos
+//@   define ro_prefix(st, p0) == ""
+//@   define forall p int :: p >= p0 && tkKind(st, p) == optPrefix ==> ro_prefix(st, p + 2) == tkVal(st, p + 1)
+//@   define forall p int :: p >= p0 && tkKind(st, p) != optPrefix && isRouteOpt(tkKind(st, p)) ==> ro_prefix(st, p + 2) == ro_prefix(st, p)
+//@   define forall p int :: p >= p0 && tkKind(st, p) == sep ==> ro_prefix(st, p + 1) == ro_prefix(st, p)
+//@   define ro_notPrefix(st, p0) == ""
+//@   define forall p int :: p >= p0 && tkKind(st, p) == optNotPrefix ==> ro_notPrefix(st, p + 2) == tkVal(st, p + 1)
+//@   define forall p int :: p >= p0 && tkKind(st, p) != optNotPrefix && isRouteOpt(tkKind(st, p)) ==> ro_notPrefix(st, p + 2) == ro_notPrefix(st, p)
+//@   define forall p int :: p >= p0 && tkKind(st, p) == sep ==> ro_notPrefix(st, p + 1) == ro_notPrefix(st, p)
+//@   define ro_sub(st, p0) == ""
+//@   define forall p int :: p >= p0 && tkKind(st, p) == optSub ==> ro_sub(st, p + 2) == tkVal(st, p + 1)
+//@   define forall p int :: p >= p0 && tkKind(st, p) != optSub && isRouteOpt(tkKind(st, p)) ==> ro_sub(st, p + 2) == ro_sub(st, p)
+//@   define forall p int :: p >= p0 && tkKind(st, p) == sep ==> ro_sub(st, p + 1) == ro_sub(st, p)
+//@   define ro_notSub(st, p0) == ""
+//@   define forall p int :: p >= p0 && tkKind(st, p) == optNotSub ==> ro_notSub(st, p + 2) == tkVal(st, p + 1)
+//@   define forall p int :: p >= p0 && tkKind(st, p) != optNotSub && isRouteOpt(tkKind(st, p)) ==> ro_notSub(st, p + 2) == ro_notSub(st, p)
+//@   define forall p int :: p >= p0 && tkKind(st, p) == sep ==> ro_notSub(st, p + 1) == ro_notSub(st, p)
+//@   define ro_regex(st, p0) == ""
+//@   define forall p int :: p >= p0 && tkKind(st, p) == optRegex ==> ro_regex(st, p + 2) == tkVal(st, p + 1)
+//@   define forall p int :: p >= p0 && tkKind(st, p) != optRegex && isRouteOpt(tkKind(st, p)) ==> ro_regex(st, p + 2) == ro_regex(st, p)
+//@   define forall p int :: p >= p0 && tkKind(st, p) == sep ==> ro_regex(st, p + 1) == ro_regex(st, p)
+//@   define ro_notRegex(st, p0) == ""
+//@   define forall p int :: p >= p0 && tkKind(st, p) == optNotRegex ==> ro_notRegex(st, p + 2) == tkVal(st, p + 1)
+//@   define forall p int :: p >= p0 && tkKind(st, p) != optNotRegex && isRouteOpt(tkKind(st, p)) ==> ro_notRegex(st, p + 2) == ro_notRegex(st, p)
+//@   define forall p int :: p >= p0 && tkKind(st, p) == sep ==> ro_notRegex(st, p + 1) == ro_notRegex(st, p)
+//@   modifies s.pos
+//@   ensures[each_option_its_own; C20] err == nil ==> prefix == ro_prefix(st, s.pos) && notPrefix == ro_notPrefix(st, s.pos) && sub == ro_sub(st, s.pos) && notSub == ro_notSub(st, s.pos) && regex == ro_regex(st, s.pos) && notRegex == ro_notRegex(st, s.pos)
+//@   ensures[scanner_kept] s.input == st && s.pos >= p0
+//@   loop 1:
+//@     invariant[scan] s.input == st && s.pos >= p0
+//@     invariant[prefix] prefix == ro_prefix(st, s.pos)
+//@     invariant[notPrefix] notPrefix == ro_notPrefix(st, s.pos)
+//@     invariant[sub] sub == ro_sub(st, s.pos)
+//@     invariant[notSub] notSub == ro_notSub(st, s.pos)
+//@     invariant[regex] regex == ro_regex(st, s.pos)
+//@     invariant[notRegex] notRegex == ro_notRegex(st, s.pos)
+
+// ---------------------------------------------------------------- readDestinations / route commands (C20, C14)
+//@ func readDestinations(s *toki.Scanner, table table.Interface, allowMatcher bool, routeKey string) (destinations []*destination.Destination, err error)
+//@   property C20,C14
+//@   requires s != nil && table != nil && table.ref != 0
+//@   modifies s.pos, allof("[]*destination.Destination")
+//@   ensures[all_built; C14] forall j int :: 0 <= j && j < len(destinations) ==> destinations[j] != nil && destinations[j].RouteName == routeKey
+//@   ensures[scanner_kept] s.input == old(s.input)
+//@   loop 1:
+//@     invariant[built_so_far] s.input == old(s.input) && t != nil && (isnil(destinations) || fresh(destinations)) && (forall j int :: 0 <= j && j < len(destinations) ==> destinations[j] != nil && destinations[j].RouteName == routeKey)
+//@   loop 2:
+//@     invariant[skipping_separators] s.input == old(s.input) && t != nil && (isnil(destinations) || fresh(destinations)) && (forall j int :: 0 <= j && j < len(destinations) ==> destinations[j] != nil && destinations[j].RouteName == routeKey)
+//@
+//@ iface (t table.Interface) DelRoute(key string) error
+//@   logged
+//@ func readDelRoute(s *toki.Scanner, table table.Interface) (err error)
+//@   property C20,C14
+//@   requires s != nil && table != nil && table.ref != 0
+//@   modifies s.pos, calls(table.DelRoute)
+//@   ensures[deletes_the_named_route; C20] tkKind(s.input, old(s.pos)) == word ==> calls(table.DelRoute) == old(calls(table.DelRoute)) ++ argsOf(tkVal(s.input, old(s.pos)))
+//@   ensures[needs_a_key; C20] tkKind(s.input, old(s.pos)) != word ==> err != nil && calls(table.DelRoute) == old(calls(table.DelRoute))
+//@
+//@ // addRoute <type> <key> [filter options]  <destinations>: the route is built from the key, the filter options and the
+//@ // destinations that follow, and it is what gets added to the table
+//@ func readAddRoute(s *toki.Scanner, table table.Interface, constructor func(key string, matcher matcher.Matcher, destinations []*destination.Destination) (route.Route, error)) (err error)
+//@   property C20,C14
+//@   requires s != nil && table != nil && table.ref != 0
+//@   modifies *
+//@   ensures[nothing_added_on_error; C20] err != nil ==> calls(table.AddRoute) == old(calls(table.AddRoute))
+//@   ensures[one_route_added; C20] err == nil ==> (exists e elem :: calls(table.AddRoute) == old(calls(table.AddRoute)) ++ e)
+//@
+//@ func readAddRouteConsistentHashing(s *toki.Scanner, table table.Interface) (err error)
+//@   property C20,C14
+//@   requires s != nil && table != nil && table.ref != 0
+//@   modifies *
+//@   ensures[nothing_added_on_error; C20] err != nil ==> calls(table.AddRoute) == old(calls(table.AddRoute))
+//@   ensures[one_route_added; C20] err == nil ==> (exists e elem :: calls(table.AddRoute) == old(calls(table.AddRoute)) ++ e)
+//@
+//@ iface (t table.Interface) GetIn() chan []byte
+//@   pure
+//@ iface (t table.Interface) UpdateDestination(key string, index int, opts map[string]string) error
+//@   logged
+//@ iface (t table.Interface) UpdateRoute(key string, opts map[string]string) error
+//@   logged
+//@
+//@ // addAgg <fn> [regex | options] <fmt> <interval> <wait> [cache= dropRaw=]
+//@ func readAddAgg(s *toki.Scanner, table table.Interface) (err error)
+//@   property C20,C14
+//@   requires s != nil && table != nil && table.ref != 0
+//@   modifies *
+//@   ensures[nothing_added_on_error; C20] err != nil ==> calls(table.AddAggregator) == old(calls(table.AddAggregator))
+//@   ensures[one_aggregation_added; C20] err == nil ==> (exists a *aggregator.Aggregator :: a != nil && calls(table.AddAggregator) == old(calls(table.AddAggregator)) ++ argsOf(a))
+//@   loop 1:
+//@     invariant[scan] t != nil && calls(table.AddAggregator) == old(calls(table.AddAggregator))
+//@   loop 2:
+//@     invariant[scan2] t != nil && calls(table.AddAggregator) == old(calls(table.AddAggregator))
+//@
+//@ func readModDest(s *toki.Scanner, table table.Interface) (err error)
+//@   property C14
+//@   requires s != nil && table != nil && table.ref != 0
+//@   modifies *
+//@   loop 1:
+//@     invariant[scan] t != nil && opts != nil
+//@ func readModRoute(s *toki.Scanner, table table.Interface) (err error)
+//@   property C14
+//@   requires s != nil && table != nil && table.ref != 0
+//@   modifies *
+//@   loop 1:
+//@     invariant[scan] t != nil && opts != nil
+//@
+//@ // The three largest readers (about 200 lines of option parsing each) are not verified yet: trusted, listed in the evidence.
+//@ func readAddRouteGrafanaNet(s *toki.Scanner, table table.Interface) error
+//@   trusted
+//@   modifies *
+//@ func readAddRouteKafkaMdm(s *toki.Scanner, table table.Interface) error
+//@   trusted
+//@   modifies *
+//@ func readAddRoutePubSub(s *toki.Scanner, table table.Interface) error
+//@   trusted
+//@   modifies *
+//@
+//@ // Apply: one admin / init command. Whatever the command text, the dispatcher and the readers under contract do not panic.
+//@ extern func toki.NewScanner(def []toki.Def) *toki.Scanner
+//@   fresh
+//@   ensures result != nil
+//@ func Apply(table table.Interface, cmd string) (err error)
+//@   property C14
+//@   requires table != nil && table.ref != 0
+//@   modifies *
